@@ -1,7 +1,7 @@
 #!/bin/bash
 # usage: tools/try_refactor_ns.sh <dir-with-patch.diff> : apply a behaviour-preserving patch to a private copy of /repo,
 # confirm the crate's own test suite passes, run EVERY quick check (development mode, --skip-proof) against it in a
-# mount namespace (private copies of /repo and /verif) and print one line per check.  Every line must be OK (or a
+# mount namespace (private copies of /repo and /verif) and print one line per check (env PIDS="C08 C03" restricts the checks).  Every line must be OK (or a
 # KNOWN-FINDING): anything else is a false alarm of the machinery (or the patch is not behaviour preserving).
 DIR=$(readlink -f "$1")
 T=/tmp/reftrial_$$
@@ -12,6 +12,6 @@ trap 'rm -rf $T' EXIT
 ( cd $T/repo && git apply $DIR/patch.diff ) || { echo "PATCH DOES NOT APPLY"; exit 2; }
 ( cd $T/repo && cargo test --workspace --no-fail-fast --offline >$T/t.log 2>&1 ); echo "tests_rc=$? failed_suites=$(grep -c 'test result: FAILED' $T/t.log)"
 rm -rf $T/repo/target
-unshare -m bash -c "mount --bind $T/repo /repo && mount --bind $T/verif /verif && cd /verif && for P in \$(python3 -c \"import json;print(' '.join(c['property_id'] for c in json.load(open('MANIFEST.json'))['checks']))\"); do python3 check.py \$P --tier quick --skip-proof 2>&1 | grep -E '^VIOLATION|^OK|^WARNING|internal error' | cut -c1-220; done; mkdir -p $T/out; cp -r /verif/evidence/replays $T/out/ 2>/dev/null"
+unshare -m bash -c "mount --bind $T/repo /repo && mount --bind $T/verif /verif && cd /verif && for P in \${PIDS:-\$(python3 -c \"import json;print(' '.join(c['property_id'] for c in json.load(open('MANIFEST.json'))['checks']))\")}; do python3 check.py \$P --tier quick --skip-proof 2>&1 | grep -E '^VIOLATION|^OK|^WARNING|internal error' | cut -c1-220; done; mkdir -p $T/out; cp -r /verif/evidence/replays $T/out/ 2>/dev/null"
 mkdir -p $DIR/replays; cp $T/out/replays/*.json $DIR/replays/ 2>/dev/null
 exit 0
